@@ -70,6 +70,72 @@ def _folded(expr):
     return ".to_uppercase()" in expr
 
 
+
+def _inherited_keys(inh):
+    """names put into `methods_to_check`: by `insert("…")` calls, from an array literal, or from a const array it is collected from"""
+    keys = re.findall(r'methods_to_check\.insert\(\s*"([^"]+)"\s*\)', inh)
+    if keys:
+        return keys
+    m = re.search(r"let\s+(?:mut\s+)?methods_to_check\b[^=;]*=\s*([^;]+);", inh)
+    if not m:
+        return []
+    rhs = m.group(1)
+    lit = re.search(r"\[([^\]]*)\]", rhs)
+    if lit and re.search(r"HashSet\s*::\s*from\s*\(|\.\s*(into_iter|iter)\s*\(\s*\)", rhs):
+        return re.findall(r'"([^"]+)"', lit.group(1))
+    c = re.match(r"\s*([A-Z_][A-Z0-9_]*)\s*\.\s*(?:iter|into_iter)\s*\(\s*\)\s*(?:\.\s*(?:copied|cloned)\s*\(\s*\)\s*)?\.\s*collect\s*(?:::\s*<[^;]*>)?\s*\(\s*\)\s*$", rhs)
+    if c:
+        d = re.search(r"(?:const|static)\s+%s\s*:\s*[^=]+=\s*&?\s*\[([^\]]*)\]\s*;" % c.group(1), inh)
+        if d:
+            return re.findall(r'"([^"]+)"', d.group(1))
+    return []
+
+
+def _ret_chain(ret):
+    """[(KEY, SEVERITY, message)] of the return-type checker in source order: the `tok_val == KEY` if-chain, or the same
+    decision written as `let msg = match tok_val.as_str() { KEY => message, …, _ => return }` followed by one push"""
+    chain = re.findall(r'tok_val\s*==\s*"([^"]+)"\s*\{\s*self\.diagnostics\.push\(\s*self\.create_diagnostic\(\s*'
+                       r'return_type_node\s*,\s*lsp_types::DiagnosticSeverity::([A-Z]+)\s*,\s*"([^"]*)"', ret)
+    n_cmp = len(re.findall(r"tok_val\s*==", ret))
+    if chain and len(chain) == n_cmp:
+        return chain
+    if n_cmp:
+        raise ValueError("return-type chain: %d arms matched of %d" % (len(chain), n_cmp))
+    m = re.search(r"let\s+(\w+)\s*=\s*match\s+tok_val\s*\.\s*as_str\s*\(\s*\)\s*(?=\{)", ret)
+    if not m:
+        raise ValueError("return-type chain: neither an if-chain nor a match on tok_val")
+    end = extract.match_brace(ret, m.end())
+    from .lexer import match_arms
+    arms = match_arms(ret[m.end() + 1:end - 1])
+    push = re.search(r"self\.diagnostics\.push\(\s*self\.create_diagnostic\(\s*return_type_node\s*,\s*"
+                     r"lsp_types::DiagnosticSeverity::([A-Z]+)\s*,\s*%s\s*\)" % m.group(1), ret[end:])
+    if not push or len(re.findall(r"self\.diagnostics\.push", ret)) != 1:
+        raise ValueError("return-type match: the single push after it not recognised")
+    out, default = [], False
+    for pat, expr in arms:
+        pat, expr = pat.strip(), expr.strip().rstrip(",").strip()
+        if pat == "_":
+            if not re.fullmatch(r"return\s*(\(\s*\))?;?", expr):
+                raise ValueError("return-type match: default arm does more than return")
+            default = True
+            continue
+        k = re.fullmatch(r'"([^"]+)"', pat)
+        if not k or default:
+            raise ValueError("return-type match: arm %r not recognised" % pat)
+        lit = re.fullmatch(r'"([^"]*)"', expr)
+        if lit:
+            msg = lit.group(1)
+        else:
+            c = re.search(r'(?:const|static)\s+%s\s*:\s*&\s*(?:\'static\s+)?str\s*=\s*"([^"]*)"\s*;' % re.escape(expr), ret)
+            if not re.fullmatch(r"\w+", expr) or not c:
+                raise ValueError("return-type match: message of %s not recognised" % pat)
+            msg = c.group(1)
+        out.append((k.group(1), push.group(1), msg))
+    if not out or not default:
+        raise ValueError("return-type match: no arms / no default")
+    return out
+
+
 def _folded_in(src):
     """like _folded, but a key that is a plain local (`get_mut(&var_key)`) is traced to its `let` bindings in `src`:
     every binding of that name must fold"""
@@ -122,6 +188,12 @@ def _arm_body(src, fn, ty):
     body = extract.fn_body(src, fn)
     m = re.search(r"downcast_ref::<\s*%s\s*>\(\)\s*\{\s*Some\([^)]*\)\s*=>\s*" % ty, body)
     if not m:
+        # the same arm written as `if let Some(..) = ….downcast_ref::<ty>() { … }` or `if ….downcast_ref::<ty>().is_some() { … }`
+        for pat in (r"if\s+let\s+Some\([^)]*\)\s*=\s*[^{;]*downcast_ref::<\s*%s\s*>\(\)\s*(?=\{)" % ty,
+                    r"if\s+[^{;]*downcast_ref::<\s*%s\s*>\(\)\s*\.\s*is_some\s*\(\s*\)\s*(?=\{)" % ty):
+            m2 = re.search(pat, body)
+            if m2:
+                return body[m2.end():extract.match_brace(body, m2.end())]
         raise ValueError("fn %s: no arm for %s" % (fn, ty))
     if body[m.end()] == "{":
         return body[m.end():extract.match_brace(body, m.end())]
@@ -153,13 +225,10 @@ def lint_consts(repo):
 
     # ---- function_return_type_checker.rs ---------------------------------------------------
     ret = S["ret"]
-    chain = re.findall(r'tok_val\s*==\s*"([^"]+)"\s*\{\s*self\.diagnostics\.push\(\s*self\.create_diagnostic\(\s*'
-                       r'return_type_node\s*,\s*lsp_types::DiagnosticSeverity::([A-Z]+)\s*,\s*"([^"]*)"', ret)
-    if not chain or len(chain) != len(re.findall(r"tok_val\s*==", ret)):
-        raise ValueError("return-type chain: %d arms matched of %d" % (len(chain), len(re.findall(r"tok_val\s*==", ret))))
+    chain = _ret_chain(ret)
     if len({c[1] for c in chain}) != 1:
         raise ValueError("return-type chain: mixed severities")
-    if not re.search(r"downcast_ref::<AstFunction>\(\)\s*\{\s*Some\(_\)\s*=>\s*self\.notify_param_decl_node\(node\)", ret):
+    if "self.notify_param_decl_node(node)" not in _arm_body(ret, "visit", "AstFunction"):
         raise ValueError("return-type checker no longer triggers on AstFunction")
     if not re.search(r"return_type\.as_any\(\)\.downcast_ref::<AstTypeBasic>\(\)", ret) or \
             not re.search(r"token\.token_type\s*==\s*TokenType::Identifier", ret):
@@ -172,7 +241,7 @@ def lint_consts(repo):
 
     # ---- inherited_checker.rs -----------------------------------------------------------------
     inh = S["inh"]
-    names = re.findall(r'methods_to_check\.insert\(\s*"([^"]+)"\s*\)', inh)
+    names = _inherited_keys(inh)
     if not names:
         raise ValueError("inherited: no methods_to_check.insert")
     d("inheritedMethods", "List String", strs(names), "inherited_checker.rs: `methods_to_check`")
@@ -376,7 +445,7 @@ def fold_sites(repo):
     reset("unpurgedMap", unpurged_reset)
 
     def inh_set():
-        keys = re.findall(r'methods_to_check\.insert\(\s*"([^"]+)"\s*\)', inh)
+        keys = _inherited_keys(inh)
         look = _call_args(inh, "self.methods_to_check", "contains")
         if not keys or len(look) != 1:
             raise ValueError("inherited: method set not recognised")
@@ -408,7 +477,7 @@ def fold_sites(repo):
     site("passName", pass_name)
 
     def ret_name():
-        keys = re.findall(r'tok_val\s*==\s*"([^"]+)"', ret)
+        keys = [c[0] for c in _ret_chain(ret)]
         tv = re.search(r"let\s+tok_val\s*=\s*token\.get_value_as_str\(\)(\.to_uppercase\(\))?\s*;", ret)
         if not keys or not tv:
             raise ValueError("return type: comparison not recognised")
